@@ -1633,6 +1633,58 @@ Proof.
   - unfold F5.dec_block. unfold F5.dec_async in A. rewrite A. reflexivity.
 Qed.
 
+(* valid packets whose body decoder ignores the remaining length (CONNECT, CONNACK): one byte too
+   many is refused by the strict poll decoder only; cut short, the three front-ends give the
+   remaining-length error / "incomplete" / the transport's EOF *)
+Definition ignores_rl5 (p : packet) : bool :=
+  match p with Connect _ | Connack _ => true | _ => false end.
+
+Lemma ignores_rl5_rt prof p chunks n m : I5.valid p = true -> ignores_rl5 p = true ->
+  body_enc p = Some (chunks, Ok n) ->
+  exists h, header_new_with (control_byte p) m = Ok h /\ build_empty_packet h = None /\
+            forall t rest, block_decode prof h t (concat chunks ++ rest) = ROk p rest.
+Proof.
+  intros Hv Hi Hb. destruct p; try discriminate Hi; cbn [body_enc] in Hb; inversion Hb; subst chunks.
+  - exists (V3.mk_header PConnect m). split; [reflexivity|]. split; [reflexivity|]. intros t rest.
+    unfold block_decode. cbn [h_typ V3.mk_header].
+    erewrite bind_ok by (eapply V5RT.connect_rt; eassumption). reflexivity.
+  - exists (V3.mk_header PConnack m). split; [reflexivity|]. split; [reflexivity|]. intros t rest.
+    unfold block_decode. cbn [h_typ V3.mk_header].
+    erewrite bind_ok by (eapply V5RT.connack_rt; eassumption). reflexivity.
+Qed.
+
+Theorem C20_poll_extra_byte_5 prof p chunks n x sfx t : I5.valid p = true -> ignores_rl5 p = true ->
+  body_enc p = Some (chunks, Ok n) -> n + 1 < VMAX ->
+  rr_res _ (poll5 prof (control_byte p :: write_var_int (n + 1) ++ (concat chunks ++ [x]) ++ sfx) t)
+  = Some (Err InvalidRemainingLength) /\
+  F5.dec_async prof t (control_byte p :: write_var_int (n + 1) ++ (concat chunks ++ [x]) ++ sfx)
+  = ROk p ([x] ++ sfx).
+Proof.
+  intros Hv Hi Hb Hn.
+  assert (Hlen : len (concat chunks ++ [x]) = n + 1).
+  { rewrite len_app. change (len (concat chunks)) with (clen chunks). rewrite (v5_parts_len p chunks n Hv Hb). reflexivity. }
+  destruct (ignores_rl5_rt prof p chunks n (n + 1) Hv Hi Hb) as (h & Hh & Hbe & RT). split.
+  - rewrite <- Hlen in Hh, Hn |- *. eapply C20_poll_leftover_5; try eassumption. apply RT.
+  - rewrite (frame5 prof _ _ h t _ Hn Hh), (same5 prof h Hbe), <- app_assoc. apply RT.
+Qed.
+
+Theorem C20_truncated_5 prof p chunks n k sfx t : I5.valid p = true -> ignores_rl5 p = true ->
+  body_enc p = Some (chunks, Ok n) -> n < VMAX -> (k < length (concat chunks))%nat ->
+  let body := firstn k (concat chunks) in
+  rr_res _ (poll5 prof (control_byte p :: write_var_int (len body) ++ body ++ sfx) t)
+    = Some (Err InvalidRemainingLength) /\
+  F5.dec_block prof (control_byte p :: write_var_int (len body) ++ body) = BNone /\
+  F5.dec_async prof TEof (control_byte p :: write_var_int (len body) ++ body) = RErr (IoError KUnexpectedEof).
+Proof.
+  intros Hv Hi Hb Hn Hk body.
+  assert (Hn' : len body < VMAX).
+  { assert (Hle : len body <= n); [|lia].
+    unfold body. rewrite <- (v5_parts_len p chunks n Hv Hb). unfold clen, len. rewrite firstn_length. lia. }
+  destruct (ignores_rl5_rt prof p chunks n (len body) Hv Hi Hb) as (h & Hh & Hbe & RT).
+  apply (C20_poll_eof_inside_5 prof _ body sfx h t Hn' Hh Hbe). unfold body.
+  apply (ok_prefix_eof _ (stable_v5_block_decode prof h) TEof _ [] p (RT TEof []) k Hk TEof).
+Qed.
+
 (* ------------------------------------------------------------------------------------ *)
 (* One concrete faulty frame per catalogue row, on the three front-ends                 *)
 (* ------------------------------------------------------------------------------------ *)
@@ -1871,3 +1923,5 @@ Print Assumptions C20_unsubscribe_short_5.
 Print Assumptions C20_suback_short_5.
 Print Assumptions C20_poll_leftover_5.
 Print Assumptions C20_poll_eof_inside_5.
+Print Assumptions C20_poll_extra_byte_5.
+Print Assumptions C20_truncated_5.
